@@ -240,7 +240,7 @@ fn main() {
         "C16" => run_parts("C16", vec![part(storeprops::StoreProp::new("C16"), "", (1500, 20000)), part(c14::C14::removal(), "actor", (300, 5000)), part(apinode::ApiNode::new("C16"), "node", (60, 1500))], &args),
         "C17" => run_parts("C17", vec![part(storeprops::StoreProp::new("C17"), "", (2000, 30000)), part(apinode::ApiNode::new("C17"), "node", (60, 1500)), part(c11::C11::registration(), "engine", (150, 3000)), part(live::Live::new("C17"), "live", (120, 2500))], &args),
         "C14" => run_parts("C14", vec![part(c14::C14::new(), "", (500, 8000)), part(apinode::ApiNode::new("C14"), "node", (60, 1500))], &args),
-        "C15" => run_parts("C15", vec![part(storeprops::StoreProp::new("C15"), "", (2000, 30000)), part(apinode::ApiNode::new("C15"), "node", (60, 1500)), part(live::Live::new("C15"), "live", (120, 2500))], &args),
+        "C15" => run_parts("C15", vec![part(storeprops::StoreProp::new("C15"), "", (2000, 30000)), part(apinode::ApiNode::new("C15"), "node", (60, 1500)), part(live::Live::new("C15"), "live", (120, 2500)), part(c12::C12::policies(), "events", (300, 6000))], &args),
         "LIVE" => run(live::Live::new("LIVE"), &args, 200, 4000),
         "NODE" => run(apinode::ApiNode::new("NODE"), &args, 60, 1500),
         "C18" => run(storeprops::StoreProp::new("C18"), &args, 300, 4000),
